@@ -319,3 +319,22 @@ MUTANTS["C03"] += [
 MUTANTS["C06"] += [
     M("conditional-shortcut-never-false", "sympytools.py", "true_value if cond else false_value", "true_value if cond is not False else false_value", "R06.a"),
 ]
+
+
+# ---- liveness of the rules added by round 8 ---------------------------------------------------------------------------
+MUTANTS["C09"] += [
+    M("sorted-assignments-memo-on-the-model", "ode.py", "        return tuple([cast(atoms.Assignment, self[name]) for name in names])", "        self.__dict__.setdefault(\"_sorted_names\", {}).setdefault(assignments_only, names)\n        self._last_sorted = names\n        return tuple([cast(atoms.Assignment, self[name]) for name in names])", "R09.b"),
+]
+MUTANTS["C19"] += [
+    M("missing-variable-bound-by-raw-name", "codegen/base.py", "                self._doprint(\n                    sympy.Symbol(name),\n                    missing_variables[index],\n                    use_variable_prefix=True,\n                )", "                f\"{self.variable_prefix}{name} = \" + self.printer.doprint(missing_variables[index])", "R19.e"),
+]
+MUTANTS["C15"] += [
+    M("float-equality-with-tolerance", "codegen/python.py", "    def _print_Equality(self, expr):\n", "    def _print_Equality(self, expr):\n        if any(a.is_Float for a in expr.args):\n            return f\"numpy.isclose({self._print(expr.args[0])}, {self._print(expr.args[1])})\"\n", "R15.d"),
+]
+MUTANTS["C08"] += [
+    M("component-tag-stripped", "transformer.py", "components.append(remove_quotes(str(s[i])))", "components.append(remove_quotes(str(s[i])).strip())", "R08.b"),
+]
+MUTANTS["C17"] += [
+    M("form-feed-no-longer-ignored", "ode.lark", "%import common.WS\n", "WS: /[ \\t\\r\\n]+/\n", "R17.b"),
+    M("entries-deduplicated-by-equality", "transformer.py", "        return tuple(assignments)\n\n    def ode(self, s)", "        return tuple(dict.fromkeys(assignments))\n\n    def ode(self, s)", "R17.b"),
+]
